@@ -57,6 +57,9 @@ import (
 
 const blkNum = uint32(5)
 
+// C41_STRICT_EMPTY=1 turns the observation "commitDone says forEmpty without >N−1−C distinct empty voters" into a violation.
+var strictEmpty = os.Getenv("C41_STRICT_EMPTY") == "1"
+
 type vote struct {
 	e, p  uint32
 	empty bool
@@ -506,7 +509,7 @@ func main() {
 			{"N4-votes", 4, 0, alphabet{targets: 2, resigners: []uint32{2, 3}}}, // 0 = to the fixpoint
 			{"N4-commits", 4, 4, alphabet{targets: 2, commits: true, senders: all4, carriedMax: 1}},
 			{"N4-commits-wide", 4, 3, alphabet{targets: 2, commits: true, senders: all4, carriedMax: 2}},
-			{"N7-votes", 7, 6, alphabet{targets: 2, resigners: []uint32{4}}},
+			{"N7-votes", 7, 7, alphabet{targets: 2, resigners: []uint32{4}}},
 			{"N7-votes-3-proposers", 7, 5, alphabet{targets: 3}},
 			{"N7-commits", 7, 3, alphabet{targets: 2, commits: true, senders: []uint32{1, 3, 4}, carriedMax: 2}},
 		}
@@ -530,6 +533,7 @@ func main() {
 			maxDepth = st.MaxDepth
 		}
 		perRun = append(perRun, map[string]any{"run": rn.name, "N": w.N, "C": w.C, "proposers": w.P, "endorsers": w.E, "committers": w.Cm,
+			"threshold_commit_signers_at_least": w.N - (w.N-1)/3 - 1, "threshold_endorsers_more_than": w.N - 1 - w.C, "threshold_endorse_more_than": w.C,
 			"vote_targets": w.targets, "commit_senders": w.senders, "carried_sets": w.nCarried, "alphabet": len(w.events),
 			"interchangeable_participants": w.others, "max_depth": st.MaxDepth, "depth_bound": rn.depth, "states": st.States, "transitions": st.Transitions,
 			"states_per_depth": st.PerDepth, "truncated_by_deadline": st.Truncated, "fixpoint": !st.DepthCapped && !st.Truncated})
@@ -760,9 +764,13 @@ func explore(r *ev.Run, w *world, depth int, cn *counters) mc.Stats {
 				}
 			}
 			if empty && !byMsgs && len(ref.anyEm) <= T2 {
-				cn.hit("commit_done_for_empty_without_empty_quorum", func() any {
+				d := func() any {
 					return det(map[string]any{"proposer": p, "for_empty": empty, "distinct_empty_voters": keys(ref.anyEm), "needed_more_than": T2})
-				})
+				}
+				cn.hit("commit_done_for_empty_without_empty_quorum", d)
+				if strictEmpty { // stricter reading (the empty flag of a commit decision needs its own distinct quorum); off by default
+					r.Violation("commitDone:for-empty-without-distinct-empty-quorum", d())
+				}
 			}
 		}
 		// ---- S: sealing for every proposal in the pool, both flags
